@@ -48,11 +48,14 @@ def stepWorld (cas obs : String) : String :=
       -- a crash (the process dies at an API call of round 1) is not predicted by the model: such cases are judged by the
       -- monitors only, the model observation is the implementation's
       let crashed := (line.splitOn "@crash").length > 1
-      let model := if crashed then obs else s!"n={rs.length} " ++ " ".intercalate ((rs.zipIdx).map (fun (r, k) => showRound (k + 1) r))
-      let irs := ((obs.splitOn " ").filter (fun t => t.startsWith "s")).filterMap (parseRound c.i.setName)
+      let model := if crashed then obs else s!"n={rs.length} " ++ " ".intercalate ((rs.zipIdx).map (fun (r, k) => showRound (k + 1) r)) ++ " tb=0"
+      let irs := ((obs.splitOn " ").filter (fun t => t.startsWith "s" && !t.startsWith "site")).filterMap (parseRound c.i.setName)
       let v := verdict [
         ("C02.converges", C02converges c.h c.i irs),
         ("C02.quiet", C02quiet c.h c.i irs),
+        -- "each at the revision its ordinal calls for": a pod the controller created is built from the template of the
+        -- revision its label names
+        ("C02.template", fieldD obs "tb" == "0" || fieldD obs "tb" == ""),
         ("C12.census", C12census c.h c.i irs),
         ("C09.recovers", c.plan.isEmpty || C02converges c.h c.i irs),
         ("C15.nopanic", irs.all (·.out != "panic"))]
